@@ -98,7 +98,7 @@ def chunkEnc (data : Bytes) : Bytes :=
 
 inductive WErr
   | localProtocol      -- httpcore.LocalProtocolError (head rejected)
-  | h11Local           -- a raw h11.LocalProtocolError from a body writer (length mismatch)
+  | h11Local           -- h11's error from a body writer (length mismatch); httpcore.LocalProtocolError since ae7c71f
   deriving DecidableEq, Repr
 
 /-- Content-Length writer over the chunks of the body iterator: bytes written, error if any -/
